@@ -18,6 +18,7 @@
 -/
 import RbModel.Gen.DI
 import RbModel.Gen.Pipeline
+import RbModel.Gen.Cmap
 
 namespace RbModel.Pipeline
 open RbModel.Gen.Pipeline
@@ -153,6 +154,20 @@ def toMacRoman (c : Nat) : Nat :=
   | some i => 0x80 + i
   | none => 0
 
+/-- src: face.rs::get_nominal_glyph, below the selection of the subtable.  The three numeric constants (`c > 0x7F`,
+    `c <= 0x00FF`, `0xF000 + c`) are the values the compiled crate has (`Gen/Cmap.lean`, probed by tools/gens/cmap.py;
+    `C16_gen_cmap_consts` states them).  The Rust function calls itself on `0xF000 + c`; the generator guarantees
+    `symbolAliasBase > symbolAliasMax`, so the inner call can neither alias again nor (platform 3) take the MacRoman
+    branch: it is the plain lookup written here. -/
+def nominalIn (s : CmapSub) (c : Nat) : Option Nat :=
+  let c := if s.platform == 1 && c > RbModel.Gen.Cmap.macAsciiMax then toMacRoman c else c
+  match s.map c with
+  | some g => some g
+  | none =>
+    -- Windows Symbol: U+F000..F0FF duplicated at U+0000..00FF (one level of recursion)
+    if s.platform == 3 && s.encoding == 0 && c ≤ RbModel.Gen.Cmap.symbolAliasMax
+    then s.map (RbModel.Gen.Cmap.symbolAliasBase + c) else none
+
 /-- src: face.rs::get_nominal_glyph -/
 def nominal (f : Font) (c : Nat) : Option Nat :=
   match bestSub f.subs with
@@ -160,13 +175,7 @@ def nominal (f : Font) (c : Nat) : Option Nat :=
   | some i =>
     match f.subs[i]? with
     | none => none
-    | some s =>
-      let c := if s.platform == 1 && c > 0x7F then toMacRoman c else c
-      match s.map c with
-      | some g => some g
-      | none =>
-        -- Windows Symbol: U+F000..F0FF duplicated at U+0000..00FF (one level of recursion)
-        if s.platform == 3 && s.encoding == 0 && c ≤ 0xFF then s.map (0xF000 + c) else none
+    | some s => nominalIn s c
 
 /-! ## metrics -/
 
